@@ -834,9 +834,21 @@ class Interp:
         key = f"{f.mod}.{f.qual}"
         icpt = getattr(self.hooks, "intercept", None)
         if icpt is not None:
-            r = icpt(self, key, args, kwargs, site)
+            try:
+                r = icpt(self, key, args, kwargs, site, f)
+            except TypeError:
+                r = icpt(self, key, args, kwargs, site)
             if r is not NotImplemented:
                 return r
+        # functools.lru_cache / cache: one result per argument tuple within a run
+        memo_key = None
+        if any("lru_cache" in norm(d) or norm(d).endswith("cache") or norm(d).endswith("cache()") for d in getattr(f.node, "decorator_list", [])):
+            memo_key = (key, tuple(tagof(a) for a in args), tuple(sorted((k, tagof(v)) for k, v in kwargs.items())))
+            if not hasattr(self, "_memo"):
+                self._memo = {}
+            if memo_key in self._memo:
+                self.effect("cache-hit", key, site)
+                return self._memo[memo_key]
         if self.depth >= self.MAX_DEPTH or self.callstack.count(key) >= 2:
             self.effect("call", key, args, kwargs, site)
             return Sym(f"{key}()@{self.siteid(site)}", origin=("call", key, args, kwargs))
@@ -855,6 +867,8 @@ class Interp:
             self.block(node.body, env)
             return Const(None)
         except _Return as r:
+            if memo_key is not None:
+                self._memo[memo_key] = r.v
             return r.v
         finally:
             self._loopctr = saved_loop
